@@ -209,8 +209,12 @@ def judge(case, ctx, ds, dataset):
         sub["after"], sub["original_ds"] = case["after"], case["original_ds"]
     log = []
     libx.seed_library(case["libseed"])
+    # both values of return_at_most_one_ranking (True is what ParCons and a nesting BioConsert pass)
+    one = (case["libseed"] // 7) % 2 == 1
+    ctx.count("runs_asking_for_one_ranking" if one else "runs_asking_for_all_rankings")
+    sub["one"] = one
     if starters == ["BioCo!"]:
-        st, cons = call(lambda: ck.BioCo().compute_consensus_rankings(dataset, scheme, False))
+        st, cons = call(lambda: ck.BioCo().compute_consensus_rankings(dataset, scheme, one))
         label = "BioCo"
     elif starters:
         logs = [[] for _ in starters]
@@ -223,10 +227,10 @@ def judge(case, ctx, ds, dataset):
                  "frozenset": lambda: frozenset(proxies)}[container]()
         ctx.count("starters_given_as:" + container)
         sub["starters_given_as"] = container
-        st, cons = call(lambda: ck.BioConsert(starting_algorithms=given).compute_consensus_rankings(dataset, scheme, False))
+        st, cons = call(lambda: ck.BioConsert(starting_algorithms=given).compute_consensus_rankings(dataset, scheme, one))
         label = "BioConsert[" + ",".join(starters) + "]"
     else:
-        st, cons = call(lambda: ck.BioConsert().compute_consensus_rankings(dataset, scheme, False))
+        st, cons = call(lambda: ck.BioConsert().compute_consensus_rankings(dataset, scheme, one))
         label = "BioConsert"
     ctx.count("runs")
     ctx.count("runs:" + label)
